@@ -2,7 +2,7 @@
 
 // C19 — tag mappings form a stable bijection and creation obeys flood limits.
 //
-// Workload: histories of get-or-create / put / delete / reset-flood / lookups over few
+// Workload: histories of get-or-create / put / delete / reset-flood (values around the maximum budget and around / far above the reset clamp; reported and stored budget compared after each) / lookups over few
 // metrics and a small key pool, virtual clock steps around the StepSec boundary, drains
 // (creations without clock movement until the flood answer), reopen of the database,
 // continuation on a database rebuilt from the binlog alone (promoted replica).
@@ -13,6 +13,7 @@ package metadata
 import (
 	"context"
 	"fmt"
+	"math"
 	"math/rand/v2"
 	"runtime"
 	"sort"
@@ -66,6 +67,10 @@ type c19Hist struct {
 }
 
 func (h *c19Hist) logf(f string, a ...any) {
+	if len(h.log) > 1200 { // the clamp history issues 10^4 requests: keep the start and the tail
+		h.log = append(h.log[:200:200], h.log[len(h.log)-400:]...)
+		h.log[199] = "… (operations dropped from the witness) …"
+	}
 	h.log = append(h.log, fmt.Sprintf("t=%d ", h.clk.Unix())+fmt.Sprintf(f, a...))
 }
 
@@ -490,31 +495,121 @@ func (h *c19Hist) del() {
 }
 
 func (h *c19Hist) reset(metric string) {
-	vals := []int64{-1, 0, 1, 1, 2, h.maxB - 1, h.maxB, h.maxB + 2, 20000}
-	v := vals[h.rnd.IntN(len(vals))]
-	_, after, err := h.db.ResetFlood(context.Background(), metric, v)
+	// values around the maximum budget and around / far above the reset clamp (maxResetLimit)
+	vals := []int64{-1, 0, 1, 1, 2, h.maxB - 1, h.maxB, h.maxB + 2}
+	if h.rnd.IntN(5) == 0 { // a huge budget switches the flood clause off for the metric: keep it rare
+		vals = []int64{maxResetLimit - 1, maxResetLimit, maxResetLimit + 1, 20000, 1_000_000, math.MaxInt32}
+	}
+	h.resetTo(metric, vals[h.rnd.IntN(len(vals))])
+}
+
+func (h *c19Hist) resetTo(metric string, v int64) {
+	rowBefore, _, freeBefore := h.floodRow(metric)
+	before, after, err := h.db.ResetFlood(context.Background(), metric, v)
 	h.w.Count("op.reset_flood", 1)
-	h.logf("resetflood(%s,%d) -> after=%d %v", metric, v, after, err)
+	h.logf("resetflood(%s,%d) -> before=%d after=%d %v", metric, v, before, after, err)
 	if err != nil {
 		h.viol("reset/unexpected-error", err.Error(), nil)
 		return
 	}
 	b := h.bucket(metric)
 	now := h.clk.Unix()
+	// the budget the statement gives the metric from now on: the reset value, at most the clamp
+	want := v
+	if v <= 0 {
+		want = h.maxB
+	} else if v > maxResetLimit {
+		want = maxResetLimit
+		h.w.Count("reset.above_clamp", 1)
+	}
+	rowEx, _, rowFree := h.floodRow(metric)
+	extra := map[string]any{"metric": metric, "requested": v, "reported_before": before, "reported_after": after, "stored_row_exists": rowEx, "stored_count_free": rowFree, "clamp": maxResetLimit}
+	if after != want {
+		h.viol("reset/reported-budget", fmt.Sprintf("ResetFlood(%d) reports budget %d, expected min(value, %d) resp. the maximum budget for a non-positive value = %d", v, after, maxResetLimit, want), extra)
+	}
+	stored := h.maxB // no row: the metric starts from the maximum budget
+	if rowEx {
+		stored = rowFree
+	}
+	switch {
+	case stored > after:
+		// observation point below the API: what the metric can really spend from now on
+		h.viol("budget/reset-stores-more-than-reported", fmt.Sprintf("ResetFlood(%d) reports budget %d but stores %d: the metric can create more mappings than the budget it was given", v, after, stored), extra)
+	case stored < after:
+		h.r.NotJudged("reset_stores_less_than_reported", 1) // stricter than reported: allowed by "at most"
+	}
+	wantBefore := h.maxB
+	if rowBefore {
+		wantBefore = freeBefore
+	}
+	if before != wantBefore {
+		// getFreeCount reads the row of a hard-coded metric name ("abc2"), so "before" is not the
+		// budget of the metric being reset; the statement does not cover the reported value
+		h.r.NotJudged("reset_reports_before_budget_of_another_metric", 1)
+	}
+	h.w.Case(true, fmt.Sprintf("reset|v:%s|row%v", c19ResetClass(v, h.maxB), rowBefore))
 	if v <= 0 {
 		*b = c19Bucket{tokens: h.maxB, lastWriter: "reset", resetAt: now, resetVal: h.maxB}
 		return
 	}
-	if v > maxResetLimit {
-		v = maxResetLimit
-	}
-	*b = c19Bucket{tokens: v, lastStep: now / h.step, init: true, lastWriter: "reset", resetAt: now, resetVal: v}
-	if v < h.maxB {
+	*b = c19Bucket{tokens: want, lastStep: now / h.step, init: true, lastWriter: "reset", resetAt: now, resetVal: want}
+	if want < h.maxB {
 		h.w.Count("reset.below_max", 1)
 		if now%h.step != 0 {
 			h.w.Count("reset.below_max_off_boundary", 1)
 		}
 	}
+}
+
+func c19ResetClass(v, maxB int64) string {
+	switch {
+	case v <= 0:
+		return "non-positive"
+	case v < maxB:
+		return "below-max"
+	case v == maxB:
+		return "max"
+	case v < maxResetLimit:
+		return "above-max"
+	case v == maxResetLimit:
+		return "clamp"
+	}
+	return "above-clamp"
+}
+
+// c19ClampHistory (thorough tier only): after a reset far above the clamp a metric really creates
+// clamp+1 mappings without clock movement; the last one must be refused.
+func c19ClampHistory(r *verifkit.Run, w *verifkit.Worker) {
+	h := &c19Hist{r: r, w: w, idx: -1, rnd: r.Rand("clamp"), clk: &mdkClock{},
+		s2i: map[string]int32{}, i2s: map[int32]string{}, everIDs: map[int32]bool{}, buckets: map[string]*c19Bucket{}}
+	h.maxB, h.bon, h.step, h.gb = 3, 1, 100, 0
+	h.clk.sec.Store(1_700_000_050)
+	h.opt = Options{MaxBudget: h.maxB, StepSec: uint32(h.step), BudgetBonus: h.bon, GlobalBudget: h.gb, Now: h.clk.Now}
+	var cleanup func()
+	h.dir, cleanup = mdkScratch(r, "c19-clamp-")
+	defer cleanup()
+	if err := mdkCreateBinlog(h.dir, 0); err != nil {
+		r.Inconclusive("cannot create binlog: " + err.Error())
+		return
+	}
+	h.dbFile = "db"
+	db, err := mdkOpen(h.dir, h.dbFile, h.opt, 0)
+	if err != nil {
+		r.Inconclusive("cannot open database: " + err.Error())
+		return
+	}
+	h.db = db
+	defer func() { _ = mdkClose(h.db) }()
+	h.getOrCreate("m0", "first")
+	h.resetTo("m0", 1_000_000)
+	floods := 0
+	for i := 0; i < maxResetLimit+3 && !h.broken; i++ {
+		if _, flood := h.getOrCreate("m0", fmt.Sprintf("clamp-k%d", i)); flood {
+			floods++
+		}
+	}
+	w.Count("clamp_history.creations_attempted", int64(maxResetLimit+3))
+	w.Count("clamp_history.flood_answers", int64(floods))
 }
 
 func (h *c19Hist) drain(metric string) {
@@ -708,11 +803,14 @@ func TestVerifC19(t *testing.T) {
 	mdkAssumeSQLite(r)
 	r.Assume("the clock passed through Options.Now never goes backwards")
 	r.Assume("PutMapping is an administrative override: the pair replaces whatever held the id or the key; ids put by hand are positive and far below 2^31")
-	r.SetRule("histories of get-or-create / put / delete / reset-flood / lookups / GetNewMappings pages / drains / reopen / continuation on a database rebuilt from the binlog (promoted replica) over 2–4 metrics and a growing key pool (hostile keys: empty-ish, 2 KB, binary, quotes, non-ASCII), MaxBudget 1–5, bonus 0–2, StepSec 60/100/3600, GlobalBudget 0/2/6, clock steps 0…3·StepSec around the boundary. One case = one judged answer. Non-trivial = a creation/flood decision outside the global-budget exemption, or a lookup/page after a delete, put or reopen; distinct = (answer kind, MaxBudget, bonus, model tokens, steps crossed, last writer of the flood row) resp. (lookup kind, hit/miss, history features).")
+	r.SetRule("histories of get-or-create / put / delete / reset-flood (values around the maximum budget and around / far above the reset clamp; reported and stored budget compared after each) / lookups / GetNewMappings pages / drains / reopen / continuation on a database rebuilt from the binlog (promoted replica) over 2–4 metrics and a growing key pool (hostile keys: empty-ish, 2 KB, binary, quotes, non-ASCII), MaxBudget 1–5, bonus 0–2, StepSec 60/100/3600, GlobalBudget 0/2/6, clock steps 0…3·StepSec around the boundary. One case = one judged answer. Non-trivial = a creation/flood decision outside the global-budget exemption, or a lookup/page after a delete, put or reopen; distinct = (answer kind, MaxBudget, bonus, model tokens, steps crossed, last writer of the flood row) resp. (lookup kind, hit/miss, history features).")
 	nHist := r.N(160, 3000)
 	nOps := r.N(80, 100)
 	workers := r.N(8, 16)
 	r.Parallel(workers, "hist", func(w *verifkit.Worker) {
+		if w.Index == 0 && r.Thorough() {
+			c19ClampHistory(r, w)
+		}
 		for i := w.Index; i < nHist; i += workers {
 			c19RunHistory(r, w, i, nOps)
 			w.Count("histories", 1)
